@@ -20,12 +20,20 @@ def run(ctx):
     for _ in range(n_rand):
         k = ctx.rng.randint(7, 64)
         cases.append({"kind": "name", "n": [ctx.rng.choice("ABCDEFG")] + [ctx.rng.choice("#b") for _ in range(k)]})
+    # pairs of long names: one letter with every count of sharps or flats up to 13 against every other such count (the pitch
+    # classes meet again after twelve accidentals), and seeded pairs across letters
+    def acc(k):
+        return ["#"] * k if k >= 0 else ["b"] * -k
+    for L in "ABCDEFG":
+        cases += [{"kind": "pair", "a": [L] + acc(i), "b": [L] + acc(j)} for i in range(-13, 14) for j in range(-13, 14)]
+    for _ in range(3000 if ctx.quick() else 30000):
+        cases.append({"kind": "pair", "a": [ctx.rng.choice("ABCDEFG")] + acc(ctx.rng.randint(-14, 14)), "b": [ctx.rng.choice("ABCDEFG")] + acc(ctx.rng.randint(-14, 14))})
     ctx.exhaustive = True
     ctx.bounds = {"quick": "names: 7 letters x all #/b strings of length <= 6 (every order); pairs over length <= 3; "
                            "malformed strings over a 15-character alphabet of length <= 3; ints -14..26 x 5 styles",
                   "thorough": "names length <= 10; pairs over length <= 5; malformed length <= 4"}[t]
     ctx.rule = ("cases enumerated by TLC from Gen_C01 (exhaustive inside the bound) plus %d seeded random names of "
-                "7..64 accidentals; distinct = distinct (operation, arguments); non-trivial = the argument carries "
+                "7..64 accidentals and pairs of names of up to 14 sharps or flats (all same-letter pairs up to 13, seeded pairs across letters); distinct = distinct (operation, arguments); non-trivial = the argument carries "
                 "at least one accidental / is a malformed string / is an out-of-range int" % n_rand)
     ctx.nontrivial = lambda r: any(len(v) > 1 for v in r["in"].values() if isinstance(v, list)) or \
         (isinstance(r["in"].get("i"), int) and not 0 <= r["in"]["i"] <= 11)
